@@ -15,19 +15,21 @@
   (`Inside p`), which is what the property quantifies over; what the unchecked index does for
   other arguments is recorded as observations at the end.
 
-  "Round trip" has two directions; ONE is proved here:
+  "Round trip" has two directions; both are proved here:
     [P] display -> text -> display:  `from_pattern(Debug rows of d) == d` for every display `d` whose
         colours belong to the colour set of its type (`pattern_debug_roundtrip`; the rows, not the framed
         `{:?}` text), with `from_pattern_cells` saying what `from_pattern` stores for a well-formed pattern;
-    [V] text -> display -> text:     `Debug(from_pattern(p))` is `p` again (normalised: rows padded to 64
-        columns, trailing empty rows dropped, hex digits upper-case) — no theorem; carried by the
-        `mock.pattern` stream (`dbg=`) and the oracle class `debug-rows`.
+    [P] text -> display -> text:     for every pattern `p` that `from_pattern` accepts,
+        `Debug(from_pattern(p))` is `p` again, normalised: every row padded with spaces to 64 columns,
+        lower-case hex digits (`Gray4`, `Gray8`) printed upper-case, trailing blank rows dropped
+        (`debug_pattern_roundtrip`; exactly `p` when `p` is in that form: `debug_pattern_roundtrip_exact`).
   The list of colour types these statements range over (`allCT`, twelve types) is tied to the source's
   `impl ColorMapping for` list in EG/Props/C20/Types.lean.
 -/
 import EG.Lemmas.Mock
 import EG.Lemmas.MockArea
 import EG.Lemmas.MockPattern
+import EG.Lemmas.MockPatternText
 namespace EG.C20
 open EG EG.Mock
 
@@ -356,7 +358,50 @@ theorem from_pattern_cells (ct : CT) (pat : List (List Char)) (rows : List (List
 example : (∀ r ∈ [['#', ' '], ['.', '#']], rowLen r = 2) ∧
     convRows .binary [['#', ' '], ['.', '#']] = some [[some 1, none], [some 0, some 1]] := by decide
 
--- [V] the direction text -> display -> text of the round trip: `Debug` of `from_pattern(pattern)` is the pattern again (rows padded to 64 columns, trailing empty rows dropped, lower-case hex digits printed upper-case): carried by correspondence + oracle only (streams mock.pattern: `dbg=`, oracle class debug-rows); the proved direction is display -> text -> display (`pattern_debug_roundtrip`)
+/-! ### text -> display -> text -/
+
+/-- **`Debug` of `from_pattern(pattern)` is the pattern again, normalised** — for EVERY pattern that
+`from_pattern` accepts (any colour type; rows of any common width up to 64, up to 64 rows, spaces
+and the type's characters, hex digits in either case): the rows `Debug` prints are the pattern's
+rows in canonical characters (`canonChar`: `a`..`f` become `A`..`F` for `Gray4` / `Gray8`, nothing
+else changes), each padded with spaces to 64 columns (`normRow`), without the trailing blank rows
+(`dropTrailing blankRow`; `Debug` reports them as "(n empty rows skipped)"). -/
+theorem debug_pattern_roundtrip (ct : CT) (pat : List (List Char)) (d : MD)
+    (h : fromPattern ct pat = .ok d) :
+    d.debugRows ct = dropTrailing blankRow (pat.map (normRow ct)) :=
+  debugRows_fromPattern ct pat d h
+
+example : ∃ d, fromPattern .gray4 [['a', ' ', '3'], [' ', ' ', ' ']] = .ok d :=
+  ⟨_, fromPattern_ok .gray4 _ [[some 10, none, some 3], [none, none, none]] 3 (by omega)
+    (by decide) (by decide) (by decide)⟩
+
+/-- The normal form of that example: one row `A 3` padded to 64 columns; the blank row is gone. -/
+theorem debug_pattern_roundtrip_example :
+    dropTrailing blankRow ([['a', ' ', '3'], [' ', ' ', ' ']].map (normRow .gray4)) =
+      [['A', ' ', '3'] ++ List.replicate 61 ' '] := by decide +kernel
+
+/-- What the normalisation does to a row (at most 64 characters, as `from_pattern` demands) and to
+a character: the documented characters of every colour type are unchanged. -/
+theorem normal_form (ct : CT) :
+    (∀ r : List Char, r.length ≤ 64 →
+      normRow ct r = r.map (canonChar ct) ++ List.replicate (64 - r.length) ' ') ∧
+    (∀ ch ∈ charset ct, canonChar ct ch = ch) ∧ canonChar ct ' ' = ' ' :=
+  ⟨normRow_of_le ct, canonChar_charset ct (mem_allCT ct), canonChar_space ct⟩
+
+/-- **A pattern in normal form is printed back exactly**: full-width rows, canonical characters, the
+last row not blank. (The `Debug` rows of any display are of this form, so `Debug ∘ from_pattern` is
+the identity on them; with `pattern_debug_roundtrip` the two maps are mutually inverse between
+displays over the type's colour set and patterns in normal form.) -/
+theorem debug_pattern_roundtrip_exact (ct : CT) (pat : List (List Char)) (d : MD)
+    (h : fromPattern ct pat = .ok d) (hw : ∀ r ∈ pat, r.length = 64)
+    (hc : ∀ r ∈ pat, ∀ c ∈ r, canonChar ct c = c)
+    (hl : ∀ last, pat.getLast? = some last → blankRow last = false) : d.debugRows ct = pat :=
+  debugRows_fromPattern_exact ct pat d h hw hc hl
+
+example : let pat := [List.replicate 63 ' ' ++ ['#'], ['.'] ++ List.replicate 63 ' ']
+    (∀ r ∈ pat, r.length = 64) ∧ (∀ r ∈ pat, ∀ c ∈ r, canonChar .binary c = c) ∧
+    (∀ last, pat.getLast? = some last → blankRow last = false) := by decide +kernel
+
 -- [V] `from_pattern` panics on over-wide / over-tall / ragged patterns and unknown characters (which assertion fires first): the model `fromPattern` transcribes the four checks arm for arm and is compared on every `mock.pattern` op (`err=`); no separate theorem
 -- [V] the framing text of `{:?}` ("MockDisplay[", "(n empty rows skipped)", "]"): compared through the hash `dh=` of the complete text on every `mock.hist` op
 -- [V] colours outside a type's colour set (`Gray8` values that are not multiples of 0x11, RGB colours other than the eight named ones) print as '?', which `from_pattern` rejects: outside the property's quantifier ("patterns over each colour type's character set"); the model follows the code and the harness only counts the outcome (`obs:debug-unrepresentable:rt-*`), no oracle class, no theorem
